@@ -3,3 +3,19 @@
 From PG Require Import Gen.TypeOrder Model.Compare.
 Lemma generated_table_ok : ranks_ok tbl = true.
 Proof. vm_compute. reflexivity. Qed.
+
+(* the hypotheses of the C06 theorems are satisfiable by non-trivial inputs *)
+From Coq Require Import NArith ZArith List.
+Import ListNotations.
+Definition example_value : pv :=
+  PDict true [ (KStr [97%N], PList true [PInt 1; PFlt 1 1; PNone]);
+               (KInt 1, PObj [65%N] [(KStr [120%N], PTuple [PBool true; PFlt 3 1]); (KStr [121%N], PMissing)]) ].
+Example cmp_ok_example : cmp_ok tbl FNum example_value = true.
+Proof. vm_compute. reflexivity. Qed.
+Example hashable_example : hashable example_value = true.
+Proof. vm_compute. reflexivity. Qed.
+(* the repaired behaviours, computed by the model *)
+Example lt_none_none : lt tbl PNone PNone = Ok false.
+Proof. vm_compute. reflexivity. Qed.
+Example lt_mixed_keys : lt tbl (PDict false [(KStr [97%N], PInt 1)]) (PDict true [(KInt 1, PInt 1)]) = Ok false.
+Proof. vm_compute. reflexivity. Qed.
